@@ -19,7 +19,7 @@ impl PartialEq for ArgList {
     /// Argument lists are compared as the lists of their positional arguments.
     /// Keyword arguments do not take part in equality
     fn eq(&self, other: &Self) -> bool {
-        self.elems == other.elems
+        self.separator == other.separator && self.elems == other.elems
     }
 }
 
